@@ -4,6 +4,7 @@ from __future__ import annotations
 
 import random
 
+import jax
 import jax.numpy as jnp
 import numpy as np
 
@@ -79,6 +80,41 @@ def engine_case(col, schedule, chunk, chains, kernels, store_ks):
         return None
     col.add(None)
     return {k: np.asarray(v) for k, v in samples.items()}
+
+
+class ClockKernel(RecordingKernel):
+    """key-ignoring kernel whose proposal reads the epoch clock: x = 1000 * epoch index + within-epoch time of the transition"""
+
+    def transition(self, prng_key, kernel_state, model_state, epoch):
+        from liesel.goose.kernel import DefaultTransitionInfo, TransitionOutcome
+        pos = self.position(model_state)
+        new = {k: jnp.zeros_like(v) + 1000.0 * epoch.nth_epoch + epoch.time_in_epoch for k, v in pos.items()}
+        info = DefaultTransitionInfo(error_code=jnp.int32(0), acceptance_prob=jnp.float32(1.0), position_moved=jnp.int32(1))
+        return TransitionOutcome(info, kernel_state, self.model.update_state(new, model_state))
+
+
+def clock_case(col, schedule):
+    """the stored chain of a clock-reading kernel is the same for every chunk size and shows a continuous within-epoch clock"""
+    import math
+    from liesel.goose.engine import Engine
+    from liesel.goose.kernel_sequence import KernelSequence
+    g = math.gcd(*[d for _, d, _ in schedule[1:]])
+    want = [0.0]
+    for j, (t, d, th) in enumerate(schedule[1:], start=1):
+        want += [1000.0 * j + i for i in range(d) if (i + 1) % th == 0]
+    for chunk in divisors(g):
+        k = ClockKernel(["p0"])
+        model = gs.DictInterface(lambda s_: 0.0)
+        k.set_model(model)
+        k.identifier = "kernel_00"
+        eng = Engine(seeds=jax.random.split(jax.random.PRNGKey(0), 1), model_states={"p0": jnp.zeros((1,), jnp.float32)}, kernel_sequence=KernelSequence([k]),
+                     epoch_configs=[mk_cfg(*c_) for c_ in schedule], jitted_sample_duration=chunk, model=model, position_keys=None, show_progress=False)
+        eng.sample_all_epochs()
+        got = np.asarray(eng.get_results().get_samples()["p0"])[0].tolist()
+        if got != want:
+            col.add({"sig": "native::chain::chunk_dependent_clock", "what": f"chunk size {chunk}: stored chain of a clock-reading kernel {got[:14]}..., expected {want[:14]}...", "input": {"schedule": schedule, "chunk": chunk}})
+            return
+    col.add(None)
 
 
 def builder_case(col, included, excluded, shape):
@@ -166,6 +202,12 @@ def bounded(tier, seed):
                     ref = out
                 elif any(not np.array_equal(ref[k], out[k]) for k in ref):
                     col.add({"sig": "native::chain::chunk_dependence", "what": "stored results differ between chunk sizes for key-ignoring kernels", "input": {"schedule": s, "chunk": chunk}})
+    for s_ in ([(0, 1, 1), (3, 12, 1), (4, 6, 2)], [(0, 1, 1), (1, 4, 1), (4, 8, 4)]):
+        try:
+            clock_case(col, s_)
+        except Exception as e:
+            col.add({"sig": f"native::chain::exception::{type(e).__name__}", "what": str(e)[:200], "input": {"schedule": s_, "kernel": "clock"}})
+        n_cases += 1
     for inc, exc, shape in ((["q"], [], (3,)), (["q"], ["p1"], ()), ([], ["p0"], (2, 2)), ([], ["p0", "p1"], ()), (["q", "p0"], ["q"], ()), (["q"], ["q", "p1"], (2,))):
         builder_case(col, inc, exc, shape)
         n_cases += 1
@@ -174,7 +216,7 @@ def bounded(tier, seed):
         "distinct_nontrivial": n_cases + (150 if tier == "quick" else 5000),
         "rule": (f"BOUNDED: ListEpochChain.append on seeded random chunk partitions (thinning 1..5, <= 24 states); real Engine with counting kernels (x += 1 per "
                  f"iteration) on {len(scheds)} schedules x chunk sizes dividing the durations (quick: smallest and largest), 2 chains, 2 kernels - stored positions, "
-                 "posterior accessors, transition-info and kernel-state counts, equality across chunk sizes; builder runs for included/excluded keys and tracked shapes. "
+                 "posterior accessors, transition-info and kernel-state counts, equality across chunk sizes; a clock-reading kernel (x = 1000*epoch + time in epoch) for every chunk size dividing the durations; builder runs for included/excluded keys and tracked shapes. "
                  f"seed={seed}"),
         "samples": [{"schedule": scheds[0], "chunks": [1, 6]}, {"included": ["q"], "excluded": ["p1"]}],
         "exhaustive": False,
